@@ -368,10 +368,14 @@ def _build(spec, rso_mod=None, variant=None):
             m.st(rso.norm(x, 'inf') <= xM)
         elif xform == 3:
             m.st(abs(x) <= xM)
-        else:
+        elif xform == 4:
             for i in range(x.size):
                 m.st(x[i] <= xM)
                 m.st(-xM <= x[i])
+        elif xform == 5:
+            m.st(3.0 * rso.norm(x, 'inf') <= 3.0 * xM)        # positively rescaled
+        else:
+            m.st(rso.norm(x, 'inf') * 0.25 <= np.array(0.25 * xM))
     for y in ys:
         if variant.get('ybound_loop'):
             for i in range(y.size):
